@@ -122,11 +122,20 @@ static void *tramp_fn(void *p)
 		vp_pin_cpu(t.cpu);
 	return t.fn(t.arg);
 }
+__thread int vp_create_fail_armed;
+uint32_t vp_create_fail_prob;
+uint64_t vp_create_fail_injected;
 int __real_pthread_create(pthread_t *t, const pthread_attr_t *a, void *(*fn)(void *), void *arg);
 int __wrap_pthread_create(pthread_t *t, const pthread_attr_t *a, void *(*fn)(void *), void *arg)
 {
-	struct tramp *tr = malloc(sizeof(*tr));
+	struct tramp *tr;
 	int ret;
+	if (vp_create_fail_armed && vp_create_fail_prob &&
+	    (uint32_t) (vp_rand(&vp_self()->rng) >> 44) < vp_create_fail_prob) {
+		__atomic_fetch_add(&vp_create_fail_injected, 1, __ATOMIC_RELAXED);
+		return EAGAIN;
+	}
+	tr = malloc(sizeof(*tr));
 	if (!tr)
 		return __real_pthread_create(t, a, fn, arg);
 	tr->fn = fn;
@@ -804,13 +813,14 @@ static int write_results(int exit_code_hint)
 		json_str(f, vp_point_names[p] ? vp_point_names[p] : "?");
 		fprintf(f, ": %llu", (unsigned long long) h);
 	}
-	fprintf(f, "},\n \"faults\": {\"futex_wait\": %llu, \"futex_wait_blocked\": %llu, \"futex_wake\": %llu, \"wake_woke\": %llu, \"inj_spurious\": %llu, \"inj_eintr\": %llu, \"inj_enosys\": %llu, \"inj_wake_delay\": %llu, \"membarrier\": %llu, \"membarrier_denied\": %llu, \"chaos_signals_sent\": %llu, \"chaos_signals_handled\": %llu},\n",
+	fprintf(f, "},\n \"faults\": {\"futex_wait\": %llu, \"futex_wait_blocked\": %llu, \"futex_wake\": %llu, \"wake_woke\": %llu, \"inj_spurious\": %llu, \"inj_eintr\": %llu, \"inj_enosys\": %llu, \"inj_wake_delay\": %llu, \"membarrier\": %llu, \"membarrier_denied\": %llu, \"chaos_signals_sent\": %llu, \"chaos_signals_handled\": %llu, \"inj_pthread_create_eagain\": %llu},\n",
 		(unsigned long long) fs.futex_wait, (unsigned long long) fs.futex_wait_blocked,
 		(unsigned long long) fs.futex_wake, (unsigned long long) fs.wake_woke,
 		(unsigned long long) fs.inj_spurious, (unsigned long long) fs.inj_eintr,
 		(unsigned long long) fs.inj_enosys, (unsigned long long) fs.inj_wake_delay,
 		(unsigned long long) fs.membarrier, (unsigned long long) fs.membarrier_denied,
-		(unsigned long long) vp_chaos_signals_sent, (unsigned long long) vp_chaos_signals_handled);
+		(unsigned long long) vp_chaos_signals_sent, (unsigned long long) vp_chaos_signals_handled,
+		(unsigned long long) __atomic_load_n(&vp_create_fail_injected, __ATOMIC_RELAXED));
 	fprintf(f, " \"signatures\": [");
 	first = 1;
 	for (int i = 0; i < VP_MAX_SIG; i++) {
@@ -1165,5 +1175,6 @@ void vp_init(int argc, char **argv, const char *harness_name)
 	vp_fault.wait_eintr = (uint32_t) (vp_arg_double("f-eintr", 0) * (1 << 20));
 	vp_fault.wake_delay = (uint32_t) (vp_arg_double("f-wake-delay", 0) * (1 << 20));
 	vp_fault.futex_enosys = (int) vp_arg_long("f-enosys", 0);
+	vp_create_fail_prob = (uint32_t) (vp_arg_double("f-create-eagain", 0) * (1 << 20));
 	(void) vp_self();
 }
